@@ -239,6 +239,11 @@ theorem OrderLawful.perm {s : Semver.System} {l₁ l₂ : List Resolve.Match.Ver
   have e : ∀ d, InList s l₂ d → InList s l₁ d := fun d ⟨v, hv, hd⟩ => ⟨v, p.mem_iff.mpr hv, hd⟩
   exact ⟨h.weak.mono e, fun a b ha hb => h.tri a b (e a ha) (e b hb)⟩
 
+theorem OrderLawful.of_subset {s : Semver.System} {l₁ l₂ : List Resolve.Match.Version} (h : OrderLawful s l₁)
+    (hsub : ∀ v ∈ l₂, v ∈ l₁) : OrderLawful s l₂ := by
+  have e : ∀ d, InList s l₂ d → InList s l₁ d := fun d ⟨v, hv, hd⟩ => ⟨v, hsub v hv, hd⟩
+  exact ⟨h.weak.mono e, fun a b ha hb => h.tri a b (e a ha) (e b hb)⟩
+
 theorem orderLawfulB_iff (s : Semver.System) (l : List Resolve.Match.Version) :
     orderLawfulB s l = true ↔ OrderLawful s l := by
   unfold orderLawfulB
